@@ -402,13 +402,49 @@ func main() {
 		}
 	}
 
+	// date histories: consecutive replies (and the two date fields of one reply) carrying every ordered
+	// pair of calendar days at most 40 days apart in 2023-12-01 .. 2025-02-28 - a decoder that
+	// remembers the previous date under a lossy key reports the second one wrongly
+	{
+		c := newClient()
+		type ymd = spec.Civil
+		window := []ymd{}
+		for d := time.Date(2023, 12, 1, 12, 0, 0, 0, time.UTC); d.Before(time.Date(2025, 3, 1, 0, 0, 0, 0, time.UTC)); d = d.AddDate(0, 0, 1) {
+			window = append(window, ymd{Y: d.Year(), M: int(d.Month()), D: d.Day()})
+		}
+		card, status, device := spec.OpByName("GetCardByIndex"), spec.OpByName("GetStatus"), spec.OpByName("GetDevice")
+		var n int64
+		for i := range window {
+			for j := range window {
+				if d := i - j; d < -40 || d > 40 {
+					continue
+				}
+				// one reply, two date fields
+				vals := ops.BaselineReply(card)
+				vals["From"], vals["To"] = window[i], window[j]
+				check(r, c, card, ops.EchoArgs(card, vals), spec.EncodeReply(card, serial, vals))
+				// two consecutive replies of two different operations
+				dv := ops.BaselineReply(device)
+				dv["Date"] = window[i]
+				check(r, c, device, ops.EchoArgs(device, dv), spec.EncodeReply(device, serial, dv))
+				sv := ops.BaselineReply(status)
+				sv["SystemDate"] = spec.Civil{Y: window[j].Y % 100, M: window[j].M, D: window[j].D}
+				check(r, c, status, ops.EchoArgs(status, sv), spec.EncodeReply(status, serial, sv))
+				n += 3
+			}
+		}
+		r.Count(n)
+		distinct.Add(n)
+		r.Set("date_history_cases", n)
+	}
+
 	fam := map[string]int64{}
 	for _, j := range jobs {
 		fam[j.op.Name] += j.n
 	}
 	r.Set("cases_per_operation", fam)
 	r.Distinct(distinct.Load())
-	r.Rule("per reply-bearing operation: baseline reply; each 1-byte field x all 256 values; each HH:mm field x all 65536 byte pairs; each BCD date x (all 65536 MMDD pairs x 5 (thorough 9) year patterns + all 65536 year pairs x 6 MMDD patterns); each adjacent byte pair of every date-time x all 65536 values x 3 (thorough 8) bases and of every system date / system time x 5 bases; binary multi-byte fields byte-wise + 32-bit alphabet; all pairs of fields over boundary patterns; echo-rule sentinels over (asked, echoed) pairs of the 32-bit alphabet. distinct = replies generated (each differs from the baseline in the swept bytes; sweeps pass through the baseline value once per family)")
+	r.Rule("per reply-bearing operation: baseline reply; each 1-byte field x all 256 values; each HH:mm field x all 65536 byte pairs; each BCD date x (all 65536 MMDD pairs x 5 (thorough 9) year patterns + all 65536 year pairs x 6 MMDD patterns); each adjacent byte pair of every date-time x all 65536 values x 3 (thorough 8) bases and of every system date / system time x 5 bases; binary multi-byte fields byte-wise + 32-bit alphabet; all pairs of fields over boundary patterns; echo-rule sentinels over (asked, echoed) pairs of the 32-bit alphabet; date histories: every ordered pair of days <= 40 days apart in 2023-12-01..2025-02-28 as From/To of one card reply and as the dates of two consecutive replies (GetDevice, GetStatus). distinct = replies generated (each differs from the baseline in the swept bytes; sweeps pass through the baseline value once per family)")
 	r.Assume("reference decoder spec.ExpectReply / spec.GetField and tables spec/protocol.go (hand-written)")
 	r.Assume("replies reach the API through the broadcast path of an unconfigured client (the directed paths share the decoding code; their filters are C03)")
 	r.Assume("process time zone pinned to UTC (zone dependence is C05/C13)")
